@@ -293,3 +293,71 @@ Proof.
     rewrite (base_temp_renumbering n p s init Hp). reflexivity.
   - exists h', h. rewrite E1, E2, H1, H2. repeat split; try reflexivity. exact Hh.
 Qed.
+
+(* =========================================================================================== *)
+(** * BaseClustering._secondary_outputs (Gen/NpSecondary.v): the class-probability rows are permuted *)
+From SKN Require Import Gen.NpSecondary Proofs.NpSecondaryProofs.
+Local Open Scope string_scope.
+
+Lemma map_nth_seq (l : list Z) (d : Z) : map (fun i => nth i l d) (seq 0 (List.length l)) = l.
+Proof.
+  induction l as [|a t IH]; [reflexivity|]. cbn [List.length]. rewrite <- cons_seq. cbn [map nth]. f_equal.
+  rewrite <- seq_shift, map_map. exact IH.
+Qed.
+
+Lemma plab_Permutation n p l : List.length l = n -> perm_on n p -> Permutation (plab n p l) l.
+Proof.
+  intros Hl Hp. unfold plab.
+  rewrite <- (map_map p (fun i => lab l i)).
+  apply (perm_trans (l' := map (fun i => lab l i) (seq 0 n))); [apply Permutation_map; exact Hp|].
+  subst n. unfold lab. rewrite map_nth_seq. apply Permutation_refl.
+Qed.
+
+Lemma max_Permutation (l l' : list Z) : Permutation l l' -> fold_right Z.max (-1)%Z l = fold_right Z.max (-1)%Z l'.
+Proof.
+  intros H. induction H as [|x l l' _ IH|x y l|l l' l'' _ IH1 _ IH2]; cbn [fold_right].
+  - reflexivity.
+  - rewrite IH. reflexivity.
+  - lia.
+  - rewrite IH1. exact IH2.
+Qed.
+
+Lemma nlab_plab n p l : List.length l = n -> perm_on n p -> nlab (plab n p l) = nlab l.
+Proof. intros Hl Hp. unfold nlab. rewrite (max_Permutation _ _ (plab_Permutation n p l Hl Hp)). reflexivity. Qed.
+
+Lemma ind_plab n p l j c : (j < n)%nat -> ind (plab n p l) j c = ind l (p j) c.
+Proof. intros Hj. unfold NpModularityProofs.ind. rewrite lab_plab by exact Hj. reflexivity. Qed.
+
+Lemma mass_renumbering n p A l i c : perm_on n p -> mass n (pmat p A) (plab n p l) i c = mass n A l (p i) c.
+Proof.
+  intros Hp. unfold mass.
+  rewrite <- rsum_lsum. rewrite <- (rsum_lsum n (fun j => A (p i) j * ind l j c)).
+  rewrite <- (rsum_reindex n p (fun j => A (p i) j * ind l j c) Hp).
+  rewrite !rsum_lsum. apply lsum_ext. intros j Hj. apply in_seq0 in Hj. unfold pmat. rewrite (ind_plab n p l j c Hj). reflexivity.
+Qed.
+
+Lemma soft_renumbering n K p A l i c : perm_on n p -> soft n K (pmat p A) (plab n p l) i c = soft n K A l (p i) c.
+Proof.
+  intros Hp. unfold soft. rewrite (mass_renumbering n p A l i c Hp). f_equal. f_equal.
+  apply lsum_ext. intros c' _. rewrite (mass_renumbering n p A l i c' Hp). reflexivity.
+Qed.
+
+Lemma secondary_probs_eval n A l : List.length l = n ->
+  rvdenote (env_sec n A l) src_secondary_probs = Some (WM n (nlab l) (soft n (nlab l) A l)).
+Proof.
+  intros Hl. unfold rvdenote, env_sec, src_secondary_probs. repeat (cbn; rewrite ?Nat.eqb_refl, ?Hl). reflexivity.
+Qed.
+
+Theorem source_secondary_probs_renumbering n p A l :
+  List.length l = n -> perm_on n p ->
+  exists K f' f,
+    rvdenote (env_sec n (pmat p A) (plab n p l)) src_secondary_probs = Some (WM n K f') /\
+    rvdenote (env_sec n A l) src_secondary_probs = Some (WM n K f) /\
+    forall i c, f' i c = f (p i) c.
+Proof.
+  intros Hl Hp. exists (nlab l), (soft n (nlab l) (pmat p A) (plab n p l)), (soft n (nlab l) A l).
+  split; [|split].
+  - rewrite <- (nlab_plab n p l Hl Hp) at 1 2. apply secondary_probs_eval. unfold plab. rewrite map_length, seq_length. reflexivity.
+  - apply secondary_probs_eval. exact Hl.
+  - intros i c. apply soft_renumbering. exact Hp.
+Qed.
